@@ -1,24 +1,22 @@
 import PnaVerif.Lemmas.PartName
 /-!
 # C15 (multipart names) — part numbers in file names can be changed and removed consistently
-Model: `Model/Cli/PartName.lean` (`with_part_n` / `remove_part_n`); proofs: `Lemmas/PartName.lean`.
+Model: `Model/Cli/PartName.lean` (`with_part_n` / `remove_part_n`, after the fix that appends
+`.partN` to a foreign extension instead of replacing it); proofs: `Lemmas/PartName.lean`.
 
 * the decimal part number is non-empty, all digits, injective; `part` + digits is a part marker;
-* `Good` (defined in the lemma file, decidable) is *exactly* the set of file names on which
-  renumbering is consistent (`good_iff_renumber`); on it different numbers give different names;
-* removal gives back the original name for names without extension and for `pna` names whose stem
-  is not `.` and is not itself numbered; renumbering does not change what removal gives;
+* numbering fails only for the names `""` and `".."`; renumbering is consistent on *every* name
+  (`Good` is `True`, `good_iff_renumber`), and different numbers give different names;
+* removal gives back the original name
+  - for every name without a `pna` extension that is not itself numbered (exactly those:
+    `removeExt_withExt_other_iff`), e.g. `x.tar ↦ x.tar.part1 ↦ x.tar`, `a.partition`;
+  - for `pna` names whose stem is not `.` and is not itself numbered;
+  and renumbering does not change what removal gives;
 * the same on simple paths `dir ++ name`.
 
-Three statements that were wanted are false for the model as written; each is refuted here by a
-kernel-checked witness and replaced by the strongest true version:
-
-* "every name that does not begin with a dot is `Good`": `a.b.c.d` is not (`a.b.c.d` ↦ `a.b.part1`
-  ↦ `a.part2`, but `a.b.c.d` ↦ `a.b.part2`).  True version: such a name is `Good` iff its
-  extension is `pna` or it has at most two dots (`good_iff_of_no_leading_dot`).
-* "removal inverts numbering on every `Good` `pna` name with an unmarked stem": `..pna` is `Good`
-  and unmarked, `..pna` ↦ `..part1.pna` ↦ `..`.  True version: additionally the stem is not `.`.
-* non-`pna` extensions do not round-trip at all (`x.tar` ↦ `x.part1` ↦ `x`); this one was expected.
+One wanted statement stays false and is refuted by a kernel-checked witness: removal on *every*
+`pna` name with an unmarked stem — `..pna ↦ ..part1.pna ↦ ..`; the stem must not be `.`.
+The witnesses of the former defect (`a.b.c.d`, `...x`, `x.tar`) are now positive examples.
 -/
 namespace Pna.C15Part
 open Pna Pna.Cli.PartName
@@ -48,10 +46,22 @@ theorem part_marker_no_dot_no_slash (n : Nat) :
 
 -- ---------------------------------------------------------------- 3. renumbering
 
-/-- renumbering a part name gives the name the original would have got -/
-theorem withExt_renumber (name w : Str) (n m : Nat) (hg : Good name)
-    (h : withExt name n = some w) : withExt w m = withExt name m := by
-  rcases withExt_shape hg (splitExt_ne_none_of_withExt h) with ⟨b, hb, hw⟩ | ⟨b, e, hb, he, hw⟩
+/-- numbering fails only when there is no file name -/
+theorem withExt_eq_none_iff (name : Str) (n : Nat) :
+    withExt name n = none ↔ name = [] ∨ name = ['.', '.'] := by
+  rw [← splitExt_eq_none_iff]
+  constructor
+  · intro h
+    apply Classical.byContradiction
+    intro hs
+    rcases withExt_shape hs with ⟨b, _, hw⟩ | ⟨b, e, _, _, hw⟩ <;> rw [hw n] at h <;> cases h
+  · intro hs
+    simp only [withExt, hs]
+
+/-- renumbering a part name gives the name the original would have got — for every name -/
+theorem withExt_renumber (name w : Str) (n m : Nat) (h : withExt name n = some w) :
+    withExt w m = withExt name m := by
+  rcases withExt_shape (splitExt_ne_none_of_withExt h) with ⟨b, hb, hw⟩ | ⟨b, e, hb, he, hw⟩
   · rw [hw n] at h
     cases h
     rw [hw m]
@@ -61,55 +71,24 @@ theorem withExt_renumber (name w : Str) (n m : Nat) (hg : Good name)
     rw [hw m]
     exact withExt_marked_pna b e hb he n m
 
-/-- `Good` is the weakest hypothesis: it is equivalent to consistent renumbering (already to
-    renumbering 0 to 0) -/
+/-- `Good` (now `True`) is the weakest hypothesis for consistent renumbering -/
 theorem good_iff_renumber (name : Str) :
     Good name ↔ ∀ n m w, withExt name n = some w → withExt w m = withExt name m :=
-  ⟨fun hg n m w h => withExt_renumber name w n m hg h, fun h => good_of_renumber (h 0 0)⟩
+  ⟨fun _ n m w h => withExt_renumber name w n m h, fun _ => trivial⟩
 
-/-- the output of a `Good` name is again `Good` -/
-theorem good_withExt (name w : Str) (n : Nat) (hg : Good name) (h : withExt name n = some w) :
-    Good w := by
-  rw [good_iff_renumber]
-  intro k m v hv
-  have h1 := withExt_renumber name w n k hg h
-  have h2 := withExt_renumber name w n m hg h
-  rw [h2]
-  rw [h1] at hv
-  exact withExt_renumber name v k m hg hv
+theorem good_all (name : Str) : Good name := trivial
 
-theorem good_of_pna_ext (name : Str) (h : PnaExt name) : Good name := good_of_pnaExt h
+theorem good_withExt (name w : Str) (n : Nat) (_h : withExt name n = some w) : Good w := trivial
 
-theorem good_of_no_extension (name stem : Str) (h : splitExt name = some (stem, none)) :
-    Good name := by
-  simp only [Good, h]
+theorem good_of_not_pna (name : Str) (_h : ¬ PnaExt name) : Good name := trivial
 
-theorem good_of_few_dots (name : Str) (h : name.count '.' ≤ 2) : Good name :=
-  good_of_count_le_two name h
-
-/-- every name that does not begin with a dot: `Good` exactly when it ends in `.pna` or has at most
-    two dots.  (No condition on emptiness or '/' is needed.) -/
-theorem good_iff_of_no_leading_dots (name : Str) (h3 : name.head? ≠ some '.') :
-    Good name ↔ PnaExt name ∨ name.count '.' ≤ 2 :=
-  good_iff_of_no_leading_dot name h3
-
-theorem good_of_no_leading_dots (name : Str) (h3 : name.head? ≠ some '.')
-    (h4 : PnaExt name ∨ name.count '.' ≤ 2) : Good name :=
-  (good_iff_of_no_leading_dot name h3).mpr h4
-
-/-- hidden files `.rest`: `rest` does not begin with a dot and has at most two dots, or the
-    extension is `pna` -/
-theorem good_of_single_leading_dot (rest : Str) (h3 : rest.head? ≠ some '.')
-    (h4 : PnaExt ('.' :: rest) ∨ rest.count '.' ≤ 2) : Good ('.' :: rest) := by
-  rcases h4 with h4 | h4
-  · exact good_of_pnaExt h4
-  · exact good_of_hidden rest h3 h4
+theorem good_of_pna_ext (name : Str) (_h : PnaExt name) : Good name := trivial
 
 -- ---------------------------------------------------------------- 4. distinctness
 
-theorem withExt_injective (name w : Str) (n m : Nat) (hg : Good name)
+theorem withExt_injective (name w : Str) (n m : Nat)
     (h1 : withExt name n = some w) (h2 : withExt name m = some w) : n = m := by
-  rcases withExt_shape hg (splitExt_ne_none_of_withExt h1) with ⟨b, _, hw⟩ | ⟨b, e, _, _, hw⟩
+  rcases withExt_shape (splitExt_ne_none_of_withExt h1) with ⟨b, _, hw⟩ | ⟨b, e, _, _, hw⟩
   · rw [hw n] at h1
     rw [hw m, ← h1] at h2
     have := List.append_cancel_left (Option.some.inj h2)
@@ -140,31 +119,75 @@ theorem removeExt_withExt_pna (name w : Str) (n : Nat)
   obtain ⟨stem, e, hs, he, hm, hdot⟩ := hp
   exact removeExt_withExt_pna_strong name w n ⟨stem, e, hs, he, not_numbered_of_notMarked hm, hdot⟩ h
 
+/-- every name that has no `pna` extension and is not itself numbered round-trips: `.partN` is
+    appended to the whole name and removed again (`x.tar ↦ x.tar.partN ↦ x.tar`) -/
+theorem removeExt_withExt_other (name w : Str) (n : Nat) (h : withExt name n = some w)
+    (hn : ¬ PnaExt name) (hm : ¬ Numbered name) : removeExt w = some name := by
+  have hs := splitExt_ne_none_of_withExt h
+  have hne : name ≠ [] := fun h0 => hs ((splitExt_eq_none_iff name).mpr (Or.inl h0))
+  rw [withExt_append n hs hn hm] at h
+  cases h
+  exact removeExt_marked_plain name hne n
+
+/-- the side condition is exact: a numbered name gets its marker replaced, and removal then gives
+    the stem -/
+theorem removeExt_withExt_other_iff (name w : Str) (n : Nat) (h : withExt name n = some w)
+    (hn : ¬ PnaExt name) : removeExt w = some name ↔ ¬ Numbered name := by
+  refine ⟨fun hr hm => ?_, removeExt_withExt_other name w n h hn⟩
+  unfold Numbered at hm
+  split at hm
+  · rename_i stem e hs
+    obtain ⟨hname, hstem, _⟩ := splitExt_some_ext hs
+    rw [withExt_replace n hs hm] at h
+    cases h
+    rw [removeExt_marked_plain stem hstem n] at hr
+    have := congrArg List.length (Option.some.inj hr)
+    rw [hname] at this
+    simp at this
+  · exact hm
+
+/-- with the stronger `NotMarked` (no extension beginning with `part` at all) -/
+theorem removeExt_withExt_other_notMarked (name w : Str) (n : Nat) (h : withExt name n = some w)
+    (hn : ¬ PnaExt name) (hm : NotMarked name) : removeExt w = some name :=
+  removeExt_withExt_other name w n h hn (not_numbered_of_notMarked hm)
+
 /-- names without extension (no dot, or only a leading one; `.` included) -/
 theorem removeExt_withExt_no_extension (name w : Str) (n : Nat)
     (hs : splitExt name = some (name, none)) (h : withExt name n = some w) :
-    removeExt w = some name := by
-  rw [withExt_plain name n hs] at h
-  cases h
-  exact removeExt_marked_plain name ((plain_iff name).mp hs).1 n
+    removeExt w = some name :=
+  removeExt_withExt_other name w n h (by simp only [PnaExt, hs, not_false_eq_true])
+    (by simp only [Numbered, hs, not_false_eq_true])
 
 theorem removeExt_withExt_dotless (name w : Str) (n : Nat) (hd : '.' ∉ name) (hne : name ≠ [])
     (h : withExt name n = some w) : removeExt w = some name :=
   removeExt_withExt_no_extension name w n (plain_of_dotless name hne hd) h
 
-/-- a part name `name` of a `pna` archive `base`: renumbering it does not change what removal
-    gives, namely `base` -/
+/-- whenever removal inverts numbering on `base`, renumbering a part name of `base` does not
+    change what removal gives, namely `base` -/
+theorem removeExt_renumbered_of (base name w : Str) (k n : Nat)
+    (hr : ∀ v j, withExt base j = some v → removeExt v = some base)
+    (hk : withExt base k = some name) (h : withExt name n = some w) :
+    removeExt name = removeExt w ∧ removeExt w = some base := by
+  have hw : withExt base n = some w := by rw [← withExt_renumber base name k n hk, h]
+  rw [hr name k hk, hr w n hw]
+  exact ⟨rfl, rfl⟩
+
+/-- a part name `name` of a `pna` archive `base` -/
 theorem removeExt_renumbered (base name w : Str) (k n : Nat)
     (hp : ∃ stem e, splitExt base = some (stem, some e) ∧ e.map lower = ['p', 'n', 'a'] ∧
       NotMarked stem ∧ stem ≠ ['.'])
     (hk : withExt base k = some name) (h : withExt name n = some w) :
-    removeExt name = removeExt w ∧ removeExt w = some base := by
-  have hg : Good base := by
-    obtain ⟨stem, e, hs, he, _⟩ := hp
-    exact good_of_pnaExt (by simp only [PnaExt, hs, he])
-  have hw : withExt base n = some w := by rw [← withExt_renumber base name k n hg hk, h]
-  rw [removeExt_withExt_pna base name k hp hk, removeExt_withExt_pna base w n hp hw]
-  exact ⟨rfl, rfl⟩
+    removeExt name = removeExt w ∧ removeExt w = some base :=
+  removeExt_renumbered_of base name w k n
+    (fun v j hv => removeExt_withExt_pna base v j hp hv) hk h
+
+/-- a part name `name` of any other file `base` that is not itself numbered -/
+theorem removeExt_renumbered_other (base name w : Str) (k n : Nat)
+    (hn : ¬ PnaExt base) (hm : ¬ Numbered base)
+    (hk : withExt base k = some name) (h : withExt name n = some w) :
+    removeExt name = removeExt w ∧ removeExt w = some base :=
+  removeExt_renumbered_of base name w k n
+    (fun v j hv => removeExt_withExt_other base v j hv hn hm) hk h
 
 -- ---------------------------------------------------------------- 6. paths
 
@@ -185,7 +208,7 @@ theorem removePart_simple (dir name : Str) (hd : DirPrefix dir) (hn : '/' ∉ na
     removePart (dir ++ name) = (removeExt name).map (dir ++ ·) := removePart_append dir name hd hn
 
 theorem withPart_renumber (dir name q : Str) (n m : Nat) (hd : DirPrefix dir) (hn : '/' ∉ name)
-    (hg : Good name) (h : withPart (dir ++ name) n = some q) :
+    (h : withPart (dir ++ name) n = some q) :
     withPart q m = withPart (dir ++ name) m := by
   rw [withPart_append dir name n hd hn] at h
   cases hw : withExt name n with
@@ -194,11 +217,11 @@ theorem withPart_renumber (dir name q : Str) (n m : Nat) (hd : DirPrefix dir) (h
     rw [hw] at h
     cases h
     rw [withPart_append dir w m hd (slash_not_mem_withExt hn hw), withPart_append dir name m hd hn,
-      withExt_renumber name w n m hg hw]
+      withExt_renumber name w n m hw]
 
 theorem withPart_injective (dir name q : Str) (n m : Nat) (hd : DirPrefix dir) (hn : '/' ∉ name)
-    (hg : Good name) (h1 : withPart (dir ++ name) n = some q)
-    (h2 : withPart (dir ++ name) m = some q) : n = m := by
+    (h1 : withPart (dir ++ name) n = some q) (h2 : withPart (dir ++ name) m = some q) :
+    n = m := by
   rw [withPart_append dir name _ hd hn] at h1 h2
   cases hw1 : withExt name n with
   | none => rw [hw1] at h1; cases h1
@@ -210,7 +233,7 @@ theorem withPart_injective (dir name q : Str) (n m : Nat) (hd : DirPrefix dir) (
       rw [hw2, ← h1] at h2
       have : w2 = w1 := List.append_cancel_left (Option.some.inj h2)
       subst this
-      exact withExt_injective name w2 n m hg hw1 hw2
+      exact withExt_injective name w2 n m hw1 hw2
 
 theorem removePart_withPart_pna (dir name q : Str) (n : Nat) (hd : DirPrefix dir)
     (hn : '/' ∉ name)
@@ -227,8 +250,8 @@ theorem removePart_withPart_pna (dir name q : Str) (n : Nat) (hd : DirPrefix dir
       removeExt_withExt_pna name w n hp hw]
     rfl
 
-theorem removePart_withPart_dotless (dir name q : Str) (n : Nat) (hd : DirPrefix dir)
-    (hn : '/' ∉ name) (hdot : '.' ∉ name) (hne : name ≠ [])
+theorem removePart_withPart_other (dir name q : Str) (n : Nat) (hd : DirPrefix dir)
+    (hn : '/' ∉ name) (hp : ¬ PnaExt name) (hm : ¬ Numbered name)
     (h : withPart (dir ++ name) n = some q) : removePart q = some (dir ++ name) := by
   rw [withPart_append dir name n hd hn] at h
   cases hw : withExt name n with
@@ -237,102 +260,114 @@ theorem removePart_withPart_dotless (dir name q : Str) (n : Nat) (hd : DirPrefix
     rw [hw] at h
     cases h
     rw [removePart_append dir w hd (slash_not_mem_withExt hn hw),
-      removeExt_withExt_dotless name w n hdot hne hw]
+      removeExt_withExt_other name w n hw hp hm]
     rfl
+
+theorem removePart_withPart_dotless (dir name q : Str) (n : Nat) (hd : DirPrefix dir)
+    (hn : '/' ∉ name) (hdot : '.' ∉ name) (hne : name ≠ [])
+    (h : withPart (dir ++ name) n = some q) : removePart q = some (dir ++ name) := by
+  have hs := plain_of_dotless name hne hdot
+  exact removePart_withPart_other dir name q n hd hn
+    (by simp only [PnaExt, hs, not_false_eq_true])
+    (by simp only [Numbered, hs, not_false_eq_true]) h
 
 -- ---------------------------------------------------------------- 7. negative witnesses
 
-/-- a non-`pna` extension does not round-trip: it is replaced, not kept -/
-theorem neg_other_extension :
-    withExt "x.tar".toList 1 = some "x.part1".toList ∧
-    removeExt "x.part1".toList = some "x".toList ∧
-    some "x".toList ≠ some "x.tar".toList := by decide +kernel
+/-- no file name, no part name -/
+theorem neg_no_file_name : withExt "".toList 1 = none ∧ withExt "..".toList 1 = none := by
+  decide +kernel
 
-/-- `...x`: the stem is `..`; numbering gives `..`, which cannot be numbered again -/
-theorem neg_dots_stem :
-    withExt "...x".toList 1 = some "..".toList ∧ withExt "..".toList 2 = none ∧
-    withExt "...x".toList 2 = some "..".toList ∧ ¬ Good "...x".toList := by decide +kernel
-
-/-- `..x.y`: what is left of the stem `..x` is `.` -/
-theorem neg_dot_stem_stem :
-    withExt "..x.y".toList 1 = some "..".toList ∧ ¬ Good "..x.y".toList := by decide +kernel
-
-/-- the wanted "every name not beginning with a dot is `Good`" is false: every renumbering of a
-    non-`pna` name eats one more extension -/
-theorem neg_no_leading_dots :
-    let name := "a.b.c.d".toList
-    name ≠ [] ∧ '/' ∉ name ∧ name.head? ≠ some '.' ∧ ¬ Good name ∧
-    withExt name 1 = some "a.b.part1".toList ∧
-    withExt "a.b.part1".toList 2 = some "a.part2".toList ∧
-    withExt name 2 = some "a.b.part2".toList := by decide +kernel
-
-/-- the same for hidden files with one more dot -/
-theorem neg_single_leading_dot :
-    ¬ Good ".a.b.c.d".toList ∧ Good ".a.b.c".toList ∧ ¬ Good "a...".toList := by decide +kernel
-
-/-- `..pna` (stem `.`) is `Good` and its stem is not marked, it renumbers consistently, yet
-    removal gives `..`: the wanted removal theorem needs `stem ≠ "."`.  `...pna` (stem `..`) does
-    round-trip. -/
+/-- `..pna` (stem `.`) has an unmarked stem and renumbers consistently, yet removal gives `..`:
+    the removal theorem needs `stem ≠ "."`.  `...pna` (stem `..`) does round-trip. -/
 theorem neg_dot_stem_pna :
     let name := "..pna".toList
-    Good name ∧ splitExt name = some (".".toList, some "pna".toList) ∧ NotMarked ".".toList ∧
+    splitExt name = some (".".toList, some "pna".toList) ∧ NotMarked ".".toList ∧
     withExt name 1 = some "..part1.pna".toList ∧
     withExt "..part1.pna".toList 2 = some "..part2.pna".toList ∧
     removeExt "..part1.pna".toList = some "..".toList ∧
     removeExt "...part1.pna".toList = some "...pna".toList := by decide +kernel
 
-/-- an already numbered name is not given back by removal: the stem must not be numbered -/
+/-- an already numbered `pna` name is not given back by removal: the stem must not be numbered -/
 theorem neg_numbered_stem :
     withExt "a.part1.pna".toList 2 = some "a.part2.pna".toList ∧
     removeExt "a.part2.pna".toList = some "a.pna".toList ∧
     Numbered "a.part1".toList ∧ ¬ NotMarked "a.part1".toList := by decide +kernel
 
-/-- between `¬ Numbered` and `NotMarked`: `part` + non-digits round-trips -/
+/-- the same without `pna`: the marker is replaced, removal gives the stem -/
+theorem neg_numbered_name :
+    Numbered "a.part1".toList ∧ ¬ PnaExt "a.part1".toList ∧
+    withExt "a.part1".toList 2 = some "a.part2".toList ∧
+    removeExt "a.part2".toList = some "a".toList := by decide +kernel
+
+/-- between `¬ Numbered` and `NotMarked`: `part` + non-digits round-trips, with and without
+    `pna` (`removeExt` tests the prefix `part` only, but always on the appended marker) -/
 theorem partx_round_trip :
     ¬ Numbered "a.partx".toList ∧ ¬ NotMarked "a.partx".toList ∧
     withExt "a.partx.pna".toList 1 = some "a.partx.part1.pna".toList ∧
-    removeExt "a.partx.part1.pna".toList = some "a.partx.pna".toList := by decide +kernel
+    removeExt "a.partx.part1.pna".toList = some "a.partx.pna".toList ∧
+    ¬ Numbered "a.partition".toList ∧ ¬ NotMarked "a.partition".toList ∧
+    withExt "a.partition".toList 1 = some "a.partition.part1".toList ∧
+    removeExt "a.partition.part1".toList = some "a.partition".toList := by decide +kernel
 
 /-- `splitPath_simple` needs the directory prefix to end with the separator -/
 theorem neg_dir_prefix :
-    ¬ DirPrefix "dir".toList ∧ splitPath ("dir".toList ++ "x".toList) ≠ ("dir".toList, "x".toList) := by
+    ¬ DirPrefix "dir".toList ∧
+    splitPath ("dir".toList ++ "x".toList) ≠ ("dir".toList, "x".toList) := by
   decide +kernel
 
-/-- the two wanted statements that are false, refuted as stated -/
-theorem wanted_good_of_no_leading_dots_false :
-    ¬ ∀ name : Str, name ≠ [] → '/' ∉ name → name.head? ≠ some '.' → Good name :=
-  fun H => absurd (H "a.b.c.d".toList (by decide) (by decide) (by decide)) (by decide +kernel)
-
+/-- the wanted removal statement without `stem ≠ "."`, refuted as stated -/
 theorem wanted_removeExt_withExt_pna_false :
     ¬ ∀ (name w : Str) (n : Nat), Good name →
       (∃ stem e, splitExt name = some (stem, some e) ∧ e.map lower = ['p', 'n', 'a'] ∧
         NotMarked stem) →
       withExt name n = some w → removeExt w = some name :=
   fun H => absurd
-    (H "..pna".toList "..part1.pna".toList 1 (by decide +kernel)
+    (H "..pna".toList "..part1.pna".toList 1 trivial
       ⟨".".toList, "pna".toList, by decide +kernel, by decide, by decide⟩ (by decide +kernel))
     (by decide +kernel)
 
--- ---------------------------------------------------------------- 8. non-vacuity
+-- ---------------------------------------------------------------- 8. non-vacuity, new behaviour
 
 example : withPart "dir/v1.2.pna".toList 3 = some "dir/v1.2.part3.pna".toList := by decide +kernel
 example : withPart "dir/v1.2.part3.pna".toList 10 = some "dir/v1.2.part10.pna".toList := by
   decide +kernel
 example : removePart "dir/v1.2.part10.pna".toList = some "dir/v1.2.pna".toList := by decide +kernel
 example : Good "v1.2.pna".toList := by decide
-example : PnaExt "v1.2.PnA".toList ∧ Good "archive.tar.gz".toList ∧ Good ".hidden.pna".toList := by
-  decide +kernel
+example : PnaExt "v1.2.PnA".toList ∧ ¬ PnaExt "archive.tar.gz".toList := by decide +kernel
 example : DirPrefix "dir/".toList ∧ '/' ∉ "v1.2.pna".toList := by decide
 
-/-- the general theorems instantiated on the example path -/
+/-- a foreign extension is kept: number, renumber, remove -/
+example :
+    withExt "backup.2024.01.tar".toList 2 = some "backup.2024.01.tar.part2".toList ∧
+    withExt "backup.2024.01.tar.part2".toList 3 = some "backup.2024.01.tar.part3".toList ∧
+    removeExt "backup.2024.01.tar.part3".toList = some "backup.2024.01.tar".toList := by
+  decide +kernel
+
+/-- the former counterexamples -/
+example :
+    withExt "x.tar".toList 1 = some "x.tar.part1".toList ∧
+    removeExt "x.tar.part1".toList = some "x.tar".toList ∧
+    withExt "a.b.c.d".toList 1 = some "a.b.c.d.part1".toList ∧
+    withExt "a.b.c.d.part1".toList 2 = some "a.b.c.d.part2".toList ∧
+    withExt "a.b.c.d".toList 2 = some "a.b.c.d.part2".toList ∧
+    withExt "...x".toList 1 = some "...x.part1".toList ∧
+    withExt "...x.part1".toList 2 = some "...x.part2".toList ∧
+    removeExt "...x.part2".toList = some "...x".toList ∧
+    withExt "..x.y".toList 1 = some "..x.y.part1".toList := by decide +kernel
+
+/-- the general theorems instantiated -/
 example (m : Nat) : withPart "dir/v1.2.part3.pna".toList m = withPart "dir/v1.2.pna".toList m :=
-  withPart_renumber "dir/".toList "v1.2.pna".toList _ 3 m (by decide) (by decide) (by decide)
+  withPart_renumber "dir/".toList "v1.2.pna".toList _ 3 m (by decide) (by decide)
     (by decide +kernel)
 
 example : removePart "dir/v1.2.part3.pna".toList = some "dir/v1.2.pna".toList :=
   removePart_withPart_pna "dir/".toList "v1.2.pna".toList _ 3 (by decide) (by decide)
     ⟨"v1.2".toList, "pna".toList, by decide +kernel, by decide, by decide, by decide⟩
     (by decide +kernel)
+
+example : removePart "d/backup.2024.01.tar.part2".toList = some "d/backup.2024.01.tar".toList :=
+  removePart_withPart_other "d/".toList "backup.2024.01.tar".toList _ 2 (by decide) (by decide)
+    (by decide +kernel) (by decide +kernel) (by decide +kernel)
 
 end Pna.C15Part
 
@@ -343,21 +378,24 @@ end Pna.C15Part
 #print axioms Pna.C15Part.decimal_injective
 #print axioms Pna.C15Part.part_marker_decimal
 #print axioms Pna.C15Part.part_marker_no_dot_no_slash
+#print axioms Pna.C15Part.withExt_eq_none_iff
 #print axioms Pna.C15Part.withExt_renumber
 #print axioms Pna.C15Part.good_iff_renumber
+#print axioms Pna.C15Part.good_all
 #print axioms Pna.C15Part.good_withExt
+#print axioms Pna.C15Part.good_of_not_pna
 #print axioms Pna.C15Part.good_of_pna_ext
-#print axioms Pna.C15Part.good_of_no_extension
-#print axioms Pna.C15Part.good_of_few_dots
-#print axioms Pna.C15Part.good_iff_of_no_leading_dots
-#print axioms Pna.C15Part.good_of_no_leading_dots
-#print axioms Pna.C15Part.good_of_single_leading_dot
 #print axioms Pna.C15Part.withExt_injective
 #print axioms Pna.C15Part.removeExt_withExt_pna_strong
 #print axioms Pna.C15Part.removeExt_withExt_pna
+#print axioms Pna.C15Part.removeExt_withExt_other
+#print axioms Pna.C15Part.removeExt_withExt_other_iff
+#print axioms Pna.C15Part.removeExt_withExt_other_notMarked
 #print axioms Pna.C15Part.removeExt_withExt_no_extension
 #print axioms Pna.C15Part.removeExt_withExt_dotless
+#print axioms Pna.C15Part.removeExt_renumbered_of
 #print axioms Pna.C15Part.removeExt_renumbered
+#print axioms Pna.C15Part.removeExt_renumbered_other
 #print axioms Pna.C15Part.dirPrefix_nil
 #print axioms Pna.C15Part.dirPrefix_slash
 #print axioms Pna.C15Part.splitPath_simple
@@ -367,15 +405,12 @@ end Pna.C15Part
 #print axioms Pna.C15Part.withPart_renumber
 #print axioms Pna.C15Part.withPart_injective
 #print axioms Pna.C15Part.removePart_withPart_pna
+#print axioms Pna.C15Part.removePart_withPart_other
 #print axioms Pna.C15Part.removePart_withPart_dotless
-#print axioms Pna.C15Part.neg_other_extension
-#print axioms Pna.C15Part.neg_dots_stem
-#print axioms Pna.C15Part.neg_dot_stem_stem
-#print axioms Pna.C15Part.neg_no_leading_dots
-#print axioms Pna.C15Part.neg_single_leading_dot
+#print axioms Pna.C15Part.neg_no_file_name
 #print axioms Pna.C15Part.neg_dot_stem_pna
 #print axioms Pna.C15Part.neg_numbered_stem
+#print axioms Pna.C15Part.neg_numbered_name
 #print axioms Pna.C15Part.partx_round_trip
 #print axioms Pna.C15Part.neg_dir_prefix
-#print axioms Pna.C15Part.wanted_good_of_no_leading_dots_false
 #print axioms Pna.C15Part.wanted_removeExt_withExt_pna_false
